@@ -1808,6 +1808,37 @@ def nontrivial_key(case):
     return ("tag", json.dumps(case, sort_keys=True, default=str))
 
 
+NUMBERLIKE_OTHERS = {"0j", "1+2j", "dec0", "dec1.5", "frac0", "frac1/3"}
+
+
+def numberlike_free(c, o):
+    """complex / Decimal / Fraction are numbers of types the property's quantifier does not list (str, bool, int/float, None, list): whether
+    a container keeps such an object or turns it into its str() like the int/float it resembles is free. True iff `o` is what the documented
+    rule gives once every such value of the case is replaced by its str() (free-behaviour round: Decimal/Fraction coerced like int/float)."""
+    import copy as _copy
+    c2 = _copy.deepcopy({k: v for k, v in c.items() if not k.startswith("_")})
+    changed = []
+
+    def walk(x):
+        if isinstance(x, list):
+            if len(x) == 2 and x[0] == "o" and x[1] in NUMBERLIKE_OTHERS:
+                changed.append(x[1])
+                x[:] = ["s", str(OTHERS[OTHER_ID[x[1]]][1])]
+            else:
+                for y in x:
+                    walk(y)
+        elif isinstance(x, dict):
+            for y in x.values():
+                walk(y)
+    walk(c2)
+    if not changed:
+        return False
+    try:
+        return oracle(c2) == o
+    except Exception:
+        return False
+
+
 def check_cases(ctx: Ctx, stream: str, cases: list):
     """real vs oracle vs model for a batch of cases"""
     obs, exts = [], []
@@ -1846,6 +1877,9 @@ def check_cases(ctx: Ctx, stream: str, cases: list):
         want = oracle(c)
         rep = canon_model(c, rep)
         ctx.case(nontrivial_key(c), sample={"case": c, "observed": o} if len(ctx.samples) < 12 and ctx.evaluations % 997 == 3 else None)
+        if o != want and numberlike_free(c, o):
+            ctx.count(f"{stream}:free:numberlike-object-coerced")
+            continue
         if o != want:
             what = "attribute value differs from the documented rule"
             if zero_defect_class(c, o, want):
